@@ -7,6 +7,8 @@ PROP = {
         "GunYu.Props.C17.update_restart_reads_local",
         "GunYu.Props.C17.update_restart_reads_local_swapped",
         "GunYu.Props.C17.update_rerun_reads_local",
+        "GunYu.Props.C17.setrunid_retries_read_local",
+        "GunYu.Props.C17.setrunid_retries_start_safe",
         "GunYu.Props.C17.migrate_prefix_safe",
         "GunYu.Props.C17.gc_prefix_safe",
         "GunYu.Props.C17.gc_spares_live_id",
@@ -74,7 +76,12 @@ PROP = {
             "stored position; SetRunId(new) - every request prefix a crash point, the next real start reads a position not smaller in the same DB; the "
             "replay's fields under the new id advance it; once the source stops reporting the old id (ids [new, other]) the next start still reads it "
             "(position in DB 0 and in other DBs, pending key rename). On 150+ arbitrary bookkeeping states the real start and VfNextStart must read the same "
-            "position and leave the same state (harness-next-start-differs). "
+            "position and leave the same state (harness-next-start-differs). Error REPLIES: every request of the real SetRunId (reads included) "
+            "is answered with an error in turn, SetRunId goes on by itself (its RetryLinearJitter under virtual time), then the real next start with "
+            "[new, old] and - if SetRunId reported success - with [new, other] must read a position not smaller, same DB "
+            "(setrunid-error-reply-loses-position); the persistent variant: every request of SetRunId fails until it gives up, the SAME RedisOutput "
+            "calls SetRunId again, the replay stores a larger offset under the new id, a NEW process starts and relabels - every prefix a crash "
+            "point (relabel-after-failed-relabel-loses-position). "
             "distinct_nontrivial = distinct (operation, precondition class, #requests, #hashes, DB of the position)",
     "trusted": ["target double harness/overlay/pkg/vfdoubles/target.go (per-DB keyspace, HSET keeps field order / HDEL removes the key when empty, INFO keyspace lists non-empty DBs, SELECT per connection)",
                 "Go map iteration over INFO keyspace = any order (parameter of the model; the order the real code used is read from the request log)"],
@@ -90,7 +97,7 @@ PROP = {
         "a format switch the code REFUSES (no authoritative seed: root checkpoint only - pinned by the repo test TestResolveBisyncCheckpointNameRejectsPlainCheckpointFallback -, or a journal gap) issues no request and leaves the target as it was; the start keeps failing until the configured mode is reverted - counted as migrate_refused, not a loss of position",
     ],
     "partial": [
-        "after a cut of UpdateCheckpoint at ANY prefix, UpdateCheckpoint run again to completion and the read under the LOCAL key is now PROVED for both ways it is run again: the START (update_restart_reads_local / _swapped: ids ordered by the checkpoint hash as syncer.updateCheckpoint does - source fact c17_start_order -, reported in the first run's order or, when the first run was a start that swapped them, in the other order; extra hypothesis only id2 != \"\") and the RETRY of the same call (update_rerun_reads_local, what SetRunId's RetryLinearJitter does). The retry needs one precondition more than update_prefix_safe: for a re-key in place the old id's fields ALONE read the position (Carrier id2). Without it the statement is false in the model AND on the real code (Props/C17.lean exOrph: mapped id's own entry reads 50, a stray <new>_offset = 70 without its run id; hset of the hash fails, the retry reads 50; reproduced with the real UpdateCheckpoint: 70@2 -> 50@2, the real next start keeps 70@2). Such a stray larger offset of an id the hash does not map is outside the reachable states (a <new>_offset field is only written after SetRunId completed), hence a precondition, not a finding",
+        "after an attempt of UpdateCheckpoint that does not complete (a stop after k requests, or an error reply to request k+1: the same target state) the operation run again to completion, and the read under the LOCAL key, is PROVED for every way the code runs it again: the START (update_restart_reads_local / _swapped: ids ordered by the checkpoint hash as syncer.updateCheckpoint does - source fact c17_start_order) and the RETRY with the same ids (update_rerun_reads_local; setrunid_retries_read_local / _start_safe: ANY number of incomplete attempts, each on what the ones before left - RedisOutput.SetRunId's RetryLinearJitter, later calls, later processes). That the retry passes the same ids is true of the code only since D33 (SetRunId assigned cfg.RunId = new id even when the attempt failed: its retry ran UpdateCheckpoint(name,[new,new]) and wrote offset -1 over the position - reproduced by c17st with an error reply at every request, fixed ef4c8b8). The precondition `Carrier id2` the retry needed in the previous round is gone: it excluded a state that was REACHABLE on the code before D33 (three failed attempts, early return of the next SetRunId, the replay writes under the unmapped new id) and that UpdateCheckpoint mishandled by deleting the entry it had just written (D34, fixed d026798; model updateReqs follows, UpdPre.orphan removed). Not modelled: SetRunId's early return `cfg.RunId == id` and the in-memory field itself (the harness runs the real function)",
         "migrate_prefix_safe bounds the ROOT checkpoint of the namespace in DB 0 (X <= X'); the position a bidirectional start really uses (root overridden by latest record / rebuilt frontier) is not in the theorem - it is monitored on every crash point with the real resolveBisyncCheckpointNameWithClient re-run + the real RedisOutput.StartPoint (migrate-next-start-regresses, migrate_next_start_checked); only requests on the checkpoint hash and the two root keys are crash points",
         "gc_spares_newest_of_live_id / gc_passes_exceptNewest are lemmas that restate the definition (kept for the audit, not required); the property's second sentence is gc_spares_live_id (whole gc pass, ANY live id)",
     ],
@@ -103,7 +110,7 @@ MANIFEST = {
             "DelStaleCheckpoint with exceptNewest never deletes in the database holding the id's largest offset, for every clock position. "
             "Tied to the code by differential correspondence of the real functions against the target double with every request prefix replayed and "
             "the real start-point read, plus independent monitors; literal field/key names regenerated from the source. "
-            "Four defects found and fixed (D13: re-keyed position written into an arbitrary database; D22: format switch dropped a newer root checkpoint; D24: gc deleted the run id fields a running sender relies on; D27: an offset stored without its run id was promoted to a position in DB 0).",
+            "Six defects found and fixed (D13: re-keyed position written into an arbitrary database; D22: format switch dropped a newer root checkpoint; D24: gc deleted the run id fields a running sender relies on; D27: an offset stored without its run id was promoted to a position in DB 0; D33: SetRunId's retry after a failed attempt ran with [new,new] and overwrote the position with -1; D34: UpdateCheckpoint run again deleted the entry it had just written).",
     "note": "trusted: Lean kernel (propext, Classical.choice, Quot.sound only), target double, extractor, harness; cmd/syncer.go gcStaleCp closure compared textually with the transliteration",
     "technique": "Lean 4 proof (position predicate preserved request by request, fold invariants over arbitrary DB orders) + differential correspondence over every request prefix (crash points)",
 }
